@@ -57,6 +57,10 @@ CLAIMED = {
         text="Lean theorems over any linearly ordered field: the fourth-order central stencil is exact on quartics (derivative c1), central on quadratics, forward/backward on linear functions, with their classical leading error terms on the next monomial (-4h^4 = h^4/30*5!, h^2, +-h) and linearity (so exactness extends to all polynomials of the scheme's order); J[i][j] differentiates equation i in state j, Z[i] equation i in the named parameter; hence exact Jacobians for rate equations that are quartic per coordinate (all mass action of order <= 4); the parameter writes of compute_Zj end with the original values for all four schemes and any number of equations. Tie: py_get_jacobian / py_get_sensitivity_to_parameter vs the Lean stencils on the Lean derivative (2e-10) and vs sympy-differentiated rate equations within the scheme's bound; parameter dictionary before/after.",
         note=NOTE_COMMON + "partial: general C^k error bounds via Taylor's theorem are not formalised (the oracle evaluates the derivative bound numerically); np.round to 10 decimals is not modelled.",
         technique="Lean 4 proof (stencil algebra by field_simp/ring; write-trace induction) + correspondence + symbolic-derivative oracle", ref="DESIGN.md §4 C18"),
+    "C04": dict(
+        text="Lean theorems: the right-hand side handed to the integrator is, without rules, exactly (S + S_d) x rate(x, t) per species (rhsGlobal_eq, via C03's derivative_spec: delayed stoichiometry counted as if the delay were zero) and with rules the derivative of the rule-updated state; the mxstep retry ladder (500, 5000, 50000, 500000); a failed integration is never reported as numbers; the result is the first successful attempt with rules re-applied to the rows; and CONDITIONALLY on the integrator's accuracy contract (SolverAccurate) every reported row is within tolerance of the exact solution (det_accurate - the partial form of the property). Tie: rhs_global(x, t) vs the Lean rhsGlobal (bitwise for mass action); end-to-end validation of the assumed contract against expm closed forms (linear) and DOP853 at 1e-12 (non-linear, time-dependent), uniform and irregular grids, first row.",
+        note=NOTE_COMMON + "partial: LSODA's accuracy and step control are assumed, not proved; they are sampled by the end-to-end validation (tolerance 2e-5(1+|x|)).",
+        technique="Lean 4 proof (RHS = rate equations; conditional accuracy) + RHS correspondence + reference-solution oracle", ref="DESIGN.md §4 C04"),
 }
 PENDING = {}
 def main():
